@@ -38,6 +38,36 @@ def read_closure(ctx: Ctx) -> Dict[str, Func]:
     return ctx.res.closure(read_roots(ctx), stop=stop)
 
 
+def strict_reads(ctx: Ctx, rule: str) -> None:
+    """the header primitives raise on a short read (ord / struct.unpack), they never turn missing bytes into a value."""
+    prims = {"read_byte": 1, "read_uint32": 4, "read_real_uint64": 8, "read_uint64": 1}
+    for name, width in prims.items():
+        f = ctx.prog.func("archiveinfo", name)
+        reads = [c for c in q.calls(f) if attr_tail(c) == "read" and c.args and isinstance(c.args[0], ast.Constant) and c.args[0].value == width]
+        if not reads:
+            ctx.fail(rule, f, f.node, f"{name} no longer reads exactly {width} byte(s)", construct=f"{name} read width")
+            continue
+        rd = reads[0]
+        # how is the value of that read converted?
+        strict = False
+        pm = None
+        from ..model import parent_map
+        pm = parent_map(f.node)
+        par = pm.get(rd)
+        if isinstance(par, ast.Call) and dotted(par.func) in ("ord",):
+            strict = True
+        if isinstance(par, ast.Assign) and isinstance(par.targets[0], ast.Name):
+            var = par.targets[0].id
+            for c in q.calls(f):
+                if dotted(c.func).split(".")[-1] in ("unpack", "ord") and any(isinstance(a, ast.Name) and a.id == var for a in c.args):
+                    strict = True
+        if isinstance(par, ast.Call) and dotted(par.func).split(".")[-1] == "unpack":
+            strict = True
+        ctx.check(strict, rule, f, rd, f"{name}: a short read raises (ord / struct.unpack)",
+                  f"{name} converts the bytes it read with a function that accepts fewer bytes than requested (e.g. int.from_bytes): at end of data it returns 0 instead of raising, so "
+                  "loops bounded by a declared count run in full on a truncated header and a torn file can parse as an empty archive")
+
+
 def targets_of(ctx: Ctx, f: Func, call: ast.Call) -> List[str]:
     cs = ctx.res.site_of(f, call)
     return [t.qname for t in cs.targets] if cs else []
